@@ -78,6 +78,10 @@ CHECKS = {
          "Held on every explored update history: after every one of 1-40 map-style / node-style updates every accessor of the read-only and the mutable view of the attribute and namespace maps of two sibling elements is compared with an ordered-map model, return values included, and the serialised start tags are read back by an independent XML reader; exploration, not proof.",
          "Key pools of 4 names / 4 prefixes; histories <= 40 steps.",
          "reference-model monitor (ordered map) after every step"),
+ "C12": ("DESIGN.md §5 C12",
+         "Held on every explored clone: sources of every node kind in random forests (incl. adjacent-text sources across a consolidation toggle) are cloned with clone_node / clone_with_prefixes; the clone must be parentless, made of new nodes, equal to the source, leave the forest unchanged, serialise on its own when the source serialised in place; 5-30 manipulation calls confined to one side must leave the other side's read-back (values and handles) unchanged; the same for Xot::clone with arbitrary calls on one store; exploration, not proof.",
+         "Mutations on one side are precondition-satisfying calls with all node arguments in that side's tree.",
+         "before/after read-back oracle + independent reader for the serialisation clause"),
  "C13": ("DESIGN.md §5 C13",
          "Held on every explored pair: deep_equal (both directions), deep_equal_xpath (4 comparators), advanced_deep_equal (4 filters), deep_equal_children, shallow_equal, shallow_equal_ignore_attributes (6 ignore-list shapes incl. repeated names) and string_value are compared with definitions computed from abstract trees, over base trees, 16 kinds of single-feature mutants, copies and independent trees, inner nodes, attribute-node and namespace-node pairs, and triples for transitivity; exploration, not proof.",
          "For two namespace nodes only 'same prefix and URI' and 'different URI' are judged; trees <= 20 nodes.",
